@@ -87,9 +87,19 @@ def oracle(res, nmodels, nsteps):
     vel = float(10.0 ** rng.uniform(-1, 3))
     models.random_state(rng, m, d, vel_scale=vel)
     zero_quat = rng.random() < 0.15
+    # a third of the cases: body at rest (angular velocity exactly zero) holding UNNORMALISED quaternions,
+    # under each integrator - the step must still store unit quaternions
+    rest = k % 3 == 1
+    m.opt.integrator = [mujoco.mjtIntegrator.mjINT_EULER, mujoco.mjtIntegrator.mjINT_RK4, mujoco.mjtIntegrator.mjINT_IMPLICITFAST][k % 3 if not rest else (k // 3) % 3]
+    if rest:
+      d.qvel[:] = 0
     for j in range(m.njnt):
+      a = m.jnt_qposadr[j]
       if zero_quat and m.jnt_type[j] == mujoco.mjtJoint.mjJNT_BALL:
-        d.qpos[m.jnt_qposadr[j] : m.jnt_qposadr[j] + 4] = 0
+        d.qpos[a : a + 4] = 0
+      elif rest and m.jnt_type[j] in (mujoco.mjtJoint.mjJNT_BALL, mujoco.mjtJoint.mjJNT_FREE):
+        o4 = a + 3 if m.jnt_type[j] == mujoco.mjtJoint.mjJNT_FREE else a
+        d.qpos[o4 : o4 + 4] *= float(rng.choice([0.3, 1.7, 2.5]))
     mm = mjw.put_model(m)
     dd = mjw.put_data(m, d, nworld=2)
     worst = 0.0
